@@ -175,7 +175,8 @@ impl CodeCache {
 
     let space_remaining = available_length - write_cursor;
     if space_remaining < MEMORY_MINIMUM_SIZE {
-      println!("Running out of space, only {} bytes left", space_remaining);
+      // diagnostics go to stderr: stdout carries the guest's serial output
+      eprintln!("Running out of space, only {} bytes left", space_remaining);
     }
 
     starting_offset
